@@ -280,6 +280,54 @@ fn prepared_at_the_rounding_limit(rep: &Reporter) {
     }
 }
 
+/// Boundary cases of the elementary reactions: an inter-molecular collision whose products need exactly the energy the
+/// reactants have (nothing left to distribute), and an on-wall collision whose product is the reactant itself (the
+/// move was undone by the repair). Judged by the clauses every update must satisfy.
+fn prepared_boundary_cases(rep: &Reporter) {
+    let h = |s: &u32| *s as u64;
+    for seed in 0..rep.tier.pick(50u64, 2_000u64) {
+        for case in 0..4usize {
+            let kes = [0.25, 2.0, 4.0, 3.5];
+            let main: Vec<Individual<TagP>> = vec![tagged(10, Some(7.0)), tagged(11, Some(3.0)), tagged(12, Some(5.0)), tagged(13, Some(9.0))];
+            let molecules: Vec<Molecule<TagP>> = main.iter().zip(kes.iter()).map(|(i, k)| Molecule::new(*k, i.clone())).collect();
+            let (name, reactants, products, comp): (&str, Vec<Individual<TagP>>, Vec<Individual<TagP>>, Box<dyn Component<TagP>>) = match case {
+                // 3 + 2 + 5 + 4 == 6 + 8: collision energy exactly 0
+                0 => ("IntermolecularIneffectiveCollisionUpdate:exactly-enough-energy", vec![main[1].clone(), main[2].clone()], vec![tagged(50, Some(6.0)), tagged(51, Some(8.0))], IntermolecularIneffectiveCollisionUpdate::new()),
+                // the on-wall move came back to the same point
+                1 => ("OnWallIneffectiveCollisionUpdate:product-is-the-reactant", vec![main[1].clone()], vec![main[1].clone()], OnWallIneffectiveCollisionUpdate::new([0.0, 0.5, 0.9][(seed % 3) as usize])),
+                // synthesis needing exactly what the two reactants have: 3 + 2 + 5 + 4 == 14
+                2 => ("SynthesisUpdate:exactly-enough-energy", vec![main[1].clone(), main[2].clone()], vec![tagged(50, Some(14.0))], SynthesisUpdate::new()),
+                // decomposition needing exactly the reactant's energy (no buffer): 3 + 2 == 1 + 4
+                _ => ("DecompositionUpdate:exactly-enough-energy", vec![main[1].clone()], vec![tagged(50, Some(1.0)), tagged(51, Some(4.0))], DecompositionUpdate::new()),
+            };
+            let mut st = State::<TagP>::new();
+            let mut pops = Populations::<TagP>::new();
+            pops.push(main.clone());
+            pops.push(reactants);
+            pops.push(products);
+            st.insert(pops);
+            st.insert(ChemicalReaction::<TagP>(molecules));
+            st.insert(EnergyBuffer(1.0));
+            st.insert(Random::new(seed));
+            let before = snap(&st, 2, h);
+            let r = catch(|| comp.execute(&TagP, &mut st).map_err(|e| format!("{e:#}")));
+            rep.case();
+            rep.nontrivial(hash_of(&("boundary", case, seed % 3)));
+            if !matches!(r, Ok(Ok(()))) {
+                rep.violation(&format!("{name}:fails-on-a-well-formed-state"), json!({"seed": seed, "result": format!("{r:?}")}));
+                continue;
+            }
+            let after = snap(&st, 0, h);
+            let op = name.split(':').next().unwrap();
+            for (sig, msg) in judge(op, &before, &after) {
+                let tail = sig.split_once(':').map(|x| x.1).unwrap_or("");
+                rep.violation(&format!("{name}:{tail}"), json!({"seed": seed, "observed": msg, "before": format!("{before:?}"), "after": format!("{after:?}")}));
+            }
+            rep.count("boundary_case_reactions", 1);
+        }
+    }
+}
+
 // ---- template runs -----------------------------------------------------------------------------------------
 #[derive(Default)]
 struct Rec {
@@ -477,6 +525,7 @@ fn main() {
     rep.assume("finite objective values; the main population is the third population from the top when an update starts");
     prepared(&rep);
     prepared_at_the_rounding_limit(&rep);
+    prepared_boundary_cases(&rep);
     let cases: Vec<_> = templates::cases(false, rep.seed, rep.tier.pick(8, 300)).into_iter().filter(|c| c.tmpl == Tmpl::Cro && c.n > 0).collect();
     let n = cases.len();
     std::thread::scope(|s| {
